@@ -72,7 +72,8 @@ class MyPyAstVisitor:
 
     def enter_moduledef(self, node: mp_nodes.MypyFile) -> None:
         self.mypy_file = node
-        is_package = node.path.endswith("__init__.py")
+        # Only files which are named "__init__.py" are packages, not e.g. "test__init__.py"
+        is_package = node.is_package_init_file()
 
         qualified_imports: list[QualifiedImport] = []
         wildcard_imports: list[WildcardImport] = []
